@@ -12,6 +12,7 @@ Reject(why) == PrintT(<<"REJECT", ToJson([line |-> l, why |-> why])>>) /\ nrej' 
 Judge(why) == IF why = "ok" THEN nrej' = nrej ELSE Reject(why)
 Why ==
   IF ~Ev.built THEN "ok"                                       \* generation refused or C01 matter: nothing embedded
+  ELSE IF ~Ev.started THEN "the generated server cannot be set up from the documents it embeds"
   ELSE IF Ev.orig # Ev.input THEN "the embedded original document is not JSON-equal to the input document"
   ELSE IF Ev.served # Ev.input THEN "the document served at /swagger.json is not JSON-equal to the input document"
   ELSE IF Ev.flatPaths # Ev.inputPaths THEN "the flattened embedded document describes different paths/operations/parameters/responses"
